@@ -2,6 +2,7 @@ SPECIFICATION MCSpec
 CONSTANTS Dropped = {}
  WriteOrder = "node"
  MaxN = 6
+ FortVers = {0, 1, 2, 3, 4, 5, 6, 7, 8, 9, 10, 11}
  Thresholds = "all"
 INVARIANTS Safety CanonAccepted
 CHECK_DEADLOCK FALSE
